@@ -106,7 +106,7 @@ func bdec(b []byte, i int, depth int) (any, int, error) {
 			return nil, i, errBenc
 		}
 		n, err := strconv.Atoi(string(b[i:j]))
-		if err != nil || n < 0 || j+1+n > len(b) {
+		if err != nil || n < 0 || n > len(b)-(j+1) { // not j+1+n > len(b): that sum overflows for hostile lengths
 			return nil, i, errBenc
 		}
 		return string(b[j+1 : j+1+n]), j + 1 + n, nil
